@@ -50,7 +50,7 @@ def core_constants(cfg, special=(), raisers=(), versioned=(), quiet=()):
 
 def run_tlc(module, cfgfile, workdir, env=None, workers=1, extra=(), timeout=3600, heap='2g', gcthreads=2,
             cwd=None):
-    cmd = ['java', '-Xmx' + heap, '-XX:+UseParallelGC', '-XX:ParallelGCThreads=%d' % gcthreads,
+    cmd = ['java', '-Xmx' + heap, '-Xss64m', '-XX:+UseParallelGC', '-XX:ParallelGCThreads=%d' % gcthreads,
            '-cp', CP, 'tlc2.TLC',
            '-workers', str(workers), '-metadir', os.path.join(workdir, 'meta_' + os.path.basename(cfgfile)),
            '-noGenerateSpecTE', '-config', cfgfile] + list(extra) + [module]
